@@ -299,9 +299,61 @@ def rule_steps_total(ctx):
     ctx.floor(R, "panic sinks examined inside best-effort steps", st["total"], 40)
 
 
+def _root_local(b, o, operand, at, hops=8):
+    """the local a (moved/copied/reborrowed) operand ultimately denotes, or None when definitions disagree"""
+    if operand["k"] not in ("copy", "move") or operand["p"]["proj"]:
+        return operand["p"]["l"] if operand["k"] in ("copy", "move") and all(p_["k"] == "deref" for p_ in operand["p"]["proj"]) else None
+    l = operand["p"]["l"]
+    for _ in range(hops):
+        defs = o._reaching(l, (), at)
+        if len(defs) != 1 or defs[0][0] != "full":
+            return l if (len(defs) == 1 and defs[0][0] in ("call", "param")) else (None if len(defs) > 1 else l)
+        r = defs[0][3]["r"]
+        at = (defs[0][1], defs[0][2])
+        if r["k"] == "use" and r["o"]["k"] in ("copy", "move") and not r["o"]["p"]["proj"]:
+            l = r["o"]["p"]["l"]
+        elif r["k"] == "ref" and all(p_["k"] == "deref" for p_ in r["p"]["proj"]):
+            l = r["p"]["l"]
+        else:
+            return l
+    return l
+
+
+def rule_partial_results_kept(ctx, R="C11/partial-results-kept"):
+    """'all other streams intact' when reading CPU information fails: the system-info record that is written is the very object the
+    failing step was filling (what it stored before failing — the processor architecture, which every reader needs to decode the
+    thread contexts — survives), and that store precedes everything in the step that can fail"""
+    b = ctx.body(R, "linux::sections::systeminfo_stream::write")
+    if b is not None:
+        o = Origin(b)
+        wc = [bi for bi, t in b.calls(lambda c: (c.short or "").endswith("write_cpu_information"))]
+        sv = [bi for bi, t in b.calls(lambda c: c.short == "mem_writer::MemoryWriter::set_value")]
+        ctx.floor(R, "write_cpu_information call", len(wc), 1)
+        ctx.floor(R, "set_value of the system-info record", len(sv), 1)
+        if wc and sv:
+            filled = _root_local(b, o, b.term(wc[0])["args"][0], (wc[0], "term"))
+            written = _root_local(b, o, b.term(sv[0])["args"][2], (sv[0], "term"))
+            ctx.check(filled is not None and filled == written, R, "same-record", b.where(sv[0]),
+                      "the record written to the stream is the object write_cpu_information was given (fields it set before failing are kept)",
+                      "the record written to the stream is not the object the CPU-information step filled (a scratch copy is committed only on success): after a failure "
+                      "the fields the step always sets — processor_architecture — are lost and no reader can decode the thread contexts")
+    w = ctx.body(R, "linux::dumper_cpu_info::x86_mips::write_cpu_information")
+    if w is not None:
+        ex = Exits(w)
+        stores = [(bi, si) for bi, blk in enumerate(w.blocks) if not blk["cleanup"] for si, st in enumerate(blk["stmts"])
+                  if st["k"] == "assign" and st["p"]["proj"] and st["p"]["proj"][-1].get("n") == "processor_architecture"]
+        ctx.floor(R, "store to processor_architecture", len(stores), 1)
+        if stores:
+            sb = stores[0][0]
+            bad = [w.where(eb) for eb in sorted(ex.err_blocks()) if not w.dominates(sb, eb)]
+            ctx.check(not bad, R, "arch-before-failures", w.where(sb, stores[0][1]), "processor_architecture is stored before every point where the step can fail",
+                      "the step can fail (%s) before processor_architecture is stored" % bad[:2])
+
+
 def run(ctx):
     rule_soft_sites(ctx)
     rule_subwriter_map(ctx)
     rule_stream_always(ctx)
     rule_no_dontcare(ctx)
     rule_steps_total(ctx)
+    rule_partial_results_kept(ctx)
